@@ -44,6 +44,7 @@ structure Node where
   o1 : Nat := 1         -- output_shape[3]
   bias : Bool := false  -- has a bias (own, or created by BatchNorm fusion)
   mult : Nat := 1       -- flatten: spatial multiplier
+  dup : Bool := false   -- a further invocation (fx call site) of a layer module invoked earlier
 deriving Repr, Inhabited
 
 abbrev Prog := List Node
@@ -568,9 +569,23 @@ def layerCostOf (f : Node → Spec → Rat) (p : Prog) (c : Cfg) (s : Sampled) (
 def layerIdxs (p : Prog) : List Nat :=
   (slots p).filterMap fun s => match s with | .layer i => some i | _ => none
 
-/-- `MPS._get_single_cost` (every layer invoked once; the inserted identity / add quantizers cost 0) -/
+/-- sum of the layer costs over a list of call sites -/
+def netCostOn (idxs : List Nat) (f : Node → Spec → Rat) (p : Prog) (c : Cfg) (s : Sampled) : Rat :=
+  ratSum (idxs.map (layerCostOf f p c s))
+
+/-- `MPS._get_single_cost` for a **non-shared** specification (`ops_bit`, `mpic_latency`,
+`ne16_latency`): `_leaf_modules` holds one entry per fx call site, each costed with the output shape of
+its own node (the inserted identity / add quantizers cost 0) -/
 def netCost (f : Node → Spec → Rat) (p : Prog) (c : Cfg) (s : Sampled) : Rat :=
-  ratSum ((layerIdxs p).map (layerCostOf f p c s))
+  netCostOn (layerIdxs p) f p c s
+
+/-- first invocations only (`_unique_leaf_modules`) -/
+def sharedIdxs (p : Prog) : List Nat := (layerIdxs p).filter fun i => !(p.nd i).dup
+
+/-- `MPS._get_single_cost` for a **shared** specification (`params_bit`): every layer module is
+charged once, however often it is invoked -/
+def netCostShared (f : Node → Spec → Rat) (p : Prog) (c : Cfg) (s : Sampled) : Rat :=
+  netCostOn (sharedIdxs p) f p c s
 
 /-- eval / hard mode, per-layer search -/
 def hardSampled (α : QId → List Rat) : Sampled := { θ := fun q => sampleHard (α q) }
